@@ -99,7 +99,9 @@ SMALL_SHAPES = [(8,), (16,), (2, 8), (8, 2), (4, 16), (16, 4), (3, 32), (32, 3),
 
 def int8pack_crash_class(dtype, weight_qtype_name, in_features, quantized_activations=False):
     """Known native crash class of this torch build (finding C07-F33): bfloat16 float activations x int8 weights reach
-    torch._weight_int8pack_mm when in_features % 4 == 0; it segfaults (or corrupts memory) unless in_features % 16 == 0.
-    Workloads of other properties steer around it; C07 probes it in sacrificial worker processes."""
+    torch._weight_int8pack_mm when in_features % 4 == 0; the kernel segfaults (or returns non-repeatable garbage) when a
+    weight row is not 16-byte aligned: always for in_features % 16 != 0, and for any in_features when the payload comes
+    from a safetensors file (unaligned storage). Workloads of other properties steer around the whole route; C07 probes
+    it (freshly allocated operands, and the crashing class in sacrificial worker processes)."""
     return dtype == torch.bfloat16 and str(weight_qtype_name) == "qint8" and not quantized_activations and \
-        in_features % 4 == 0 and in_features % 16 != 0
+        in_features % 4 == 0
